@@ -465,7 +465,8 @@ def refresh_tables():
         sys.path.insert(0, tools)
     import importlib
     for mod, fn in (("extract_gctrace", "main_write"), ("extract_escape_table", "main_write"),
-                    ("extract_tracesites", "generate"), ("extract_number_sites", "main_write")):
+                    ("extract_tracesites", "generate"), ("extract_number_sites", "main_write"),
+                    ("extract_panic_sites", "main_write")):
         try:
             getattr(importlib.import_module(mod), fn)()
         except BaseException:  # noqa  (extractors may call sys.exit)
